@@ -210,7 +210,7 @@ class Impl:
         n = self.node
         c = n.config
         lines = ["reset", f"node {n.operating_state.name} {c.start_up_duration} {c.start_up_countdown} {c.shut_down_duration} "
-                          f"{c.shut_down_countdown} {b(c.is_resetting)} {c.node_scan_duration} {n.node_scan_countdown}"]
+                          f"{c.shut_down_countdown} {b(c.is_resetting)} {c.node_scan_duration} {n.node_scan_countdown} {n.red_scan_countdown}"]
         for sw in self.sws:
             name, is_app, op, a, v, fd, fc, ad, ac = self.sw_fields(sw)
             lines.append(f"addsw {name} {'app' if is_app else 'svc'} {op} {a} {v} {fd} {o(fc)} {ad} {o(ac)}")
@@ -241,7 +241,7 @@ class Impl:
             fos.append(f"{fo.name}:{b(fo.deleted)}{mark}:{fo.health_status.name}:{fo.visible_health_status.name}:"
                        f"{fo.scan_countdown}:{fo.restore_countdown}[" + ",".join(files) + "]")
         return (f"P={n.operating_state.name},{c.start_up_countdown},{c.shut_down_countdown},{b(c.is_resetting)},"
-                f"{n.node_scan_countdown} S=" + sw + " F=" + " ".join(fos) + " V=" + self.view())
+                f"{n.node_scan_countdown},{n.red_scan_countdown} S=" + sw + " F=" + " ".join(fos) + " V=" + self.view())
 
     def view(self) -> str:
         """what the agent sees BY NAME: the visible values in `describe_state()` of the file system (live folders by name, live
@@ -307,6 +307,8 @@ class Impl:
             return self.req("reset" if k == "nodereset" else k)
         if k == "osscan":
             return self.req("os", "scan")
+        if k == "redscan":  # the top-level node request `scan` = reveal-to-red scan (same duration, same block of the timestep)
+            return self.req("scan")
         if k == "sw":
             return self.req("application" if op[1] == "app" else "service", op[2], op[3])
         if k == "swset":
@@ -616,7 +618,8 @@ def gen_ops_for(rng: Rng, svcs: List[str], apps: List[str], folders: List[str], 
     for _ in range(n):
         r = rng.below(tot)
         acc = 0
-        for w, fn in zip(weights, (lambda: ["tick"], sw_op, fs_op, power_op, lambda: ["osscan"], api_op)):
+        for w, fn in zip(weights, (lambda: ["tick"], sw_op, fs_op, power_op,
+                                   lambda: ["osscan"] if rng.chance(2, 3) else ["redscan"], api_op)):
             acc += w
             if r < acc:
                 ops.append(fn())
@@ -633,7 +636,7 @@ def exhaustive_cases(depth: int, durs=(0, 1, 2, 3), small: bool = False) -> List
                 ["startup"]]
     if small:
         alphabet = [["tick"], ["sw", "svc", "dns-server", "compromise"], ["sw", "svc", "dns-server", "fix"], ["osscan"],
-                    ["folder", "d0", "scan"], ["shutdown"]]
+                    ["folder", "d0", "scan"], ["shutdown"]] + ([["redscan"]] if depth <= 3 else [])
     cases = []
 
     def rec(prefix):
@@ -1062,4 +1065,49 @@ def lifecycle_timer_cases(durs=(1, 2, 3)) -> List[dict]:
                                       "folders": [{"name": "d0", "scan": d, "restore": d,
                                                    "files": [{"name": "a.txt", "health": "GOOD"}, {"name": "b.txt", "health": "GOOD"}]}],
                                       "ops": ops, "family": "lifecycle-timer:" + name})
+    return cases
+
+
+# ------------------------------------------------------------------------------------------ two timed processes completing together
+def simultaneous_cases(durs_a=(1, 2, 3), durs_b=(1, 2)) -> List[dict]:
+    """For every ORDERED PAIR of timed processes of one node - fix (service), installation (application), folder scan, folder
+    restore (same folder), whole-node scan, reveal-to-red scan, service restart - durations and the gap between the two requests
+    are chosen so that B completes one timestep before, IN THE SAME timestep as, and one after A. The whole-node scan and the
+    reveal-to-red scan share `node_scan_duration`, so for that pair the durations are equal and only the gap varies. Enumerated."""
+    svc, svc2, app = "dns-server", "ntp-server", "database-client"
+    procs = {
+        # name: (start ops, completion timestep for duration d, where the duration lives)
+        "fix": ([["sw", "svc", svc, "fix"]], lambda d: max(1, d), "fix"),
+        "install": ([["sw", "app", app, "close"], ["appinstall", app]], lambda d: max(1, d), "aux-app"),
+        "folder-scan": ([["folder", "d0", "scan"]], lambda d: max(1, d), "fscan"),
+        "folder-restore": ([["folder", "d0", "restore"]], lambda d: max(1, d), "frest"),
+        "node-scan": ([["osscan"]], lambda d: max(1, d), "node"),
+        "red-scan": ([["redscan"]], lambda d: d, "node"),
+        "restart": ([["sw", "svc", svc2, "restart"]], lambda d: d + 1, "aux-svc"),
+    }
+    cases = []
+    for a, (sa, ca, wa) in procs.items():
+        for b_, (sb, cb, wb) in procs.items():
+            if a == b_:
+                continue
+            for da in durs_a:
+                for db in durs_b:
+                    if wa == wb and da != db:
+                        continue
+                    for delta in (-1, 0, 1):
+                        gap = ca(da) + delta - cb(db)
+                        if gap < 0:
+                            continue
+                        dur = {"fix": 2, "aux-app": 2, "fscan": 2, "frest": 2, "node": 2, "aux-svc": 2}
+                        dur[wa] = da
+                        dur[wb] = db
+                        ops = [["sw", "svc", svc, "compromise"], ["file", "d0", "a.txt", "corrupt"]] + [list(x) for x in sa] + \
+                              [["tick"]] * gap + [list(x) for x in sb] + [["tick"]] * (max(ca(da), gap + cb(db)) - gap + 2)
+                        cases.append({"node": {"start": 0, "shut": 0, "scan": dur["node"], "initial": "ON"},
+                                      "sw": [{"cls": svc, "fix": dur["fix"], "health": "GOOD", "aux": 2},
+                                             {"cls": svc2, "fix": 2, "health": "GOOD", "aux": dur["aux-svc"]},
+                                             {"cls": app, "fix": 2, "health": "GOOD", "aux": dur["aux-app"]}], "sysfix": {},
+                                      "folders": [{"name": "d0", "scan": dur["fscan"], "restore": dur["frest"],
+                                                   "files": [{"name": "a.txt", "health": "GOOD"}, {"name": "b.txt", "health": "COMPROMISED"}]}],
+                                      "ops": ops, "family": f"simultaneous:{a}+{b_}", "delta": delta})
     return cases
